@@ -115,6 +115,61 @@ Theorem c04_no_schedule_does_more :
 Proof. exact net_no_longer_run. Qed.
 Print Assumptions c04_no_schedule_does_more.
 
+(* (d) the first sentence, on the net model: on a VALID plain bench (capacities >= 1, connection targets
+   exist, queries go to models with a larger index - bench_valid) a run from a well-formed state (QInv)
+   that ends without failure and with every mailbox empty - which is when the call returns Ok - has an
+   EMPTY POOL: every message sent has been processed, no handler is left half-way (not in a send, not
+   waiting for a reply, not before a later op), no init is pending.  The proof carries, for every reply
+   still awaited, a carrier of the request (in a sender's hands, in a mailbox, or served by a frame of a
+   model with a larger index) through every step of the net model. *)
+Require Import NX.Proofs.ConfQuiet.
+
+Theorem c04_ok_means_every_computation_finished :
+  forall b fuel ch s nd s' nd',
+    bench_valid b -> NInv s -> QInv b s -> net_run b fuel ch s nd = Some (s', nd') ->
+    err s' = None -> (forall m q, nth_error (boxes s') m = Some q -> q = []) ->
+    pool_of b s' = [].
+Proof. exact net_run_ok_pool_empty. Qed.
+Print Assumptions c04_ok_means_every_computation_finished.
+
+(* (e) hence schedule independence with no hypothesis on the final pools *)
+Theorem c04_schedule_independence_of_ok_runs :
+  forall b s f1 ch1 nd1 s1 nd1' f2 ch2 nd2 s2 nd2',
+    bench_valid b -> NInv s -> QInv b s ->
+    net_run b f1 ch1 s nd1 = Some (s1, nd1') -> net_run b f2 ch2 s nd2 = Some (s2, nd2') ->
+    err s1 = None -> (forall m q, nth_error (boxes s1) m = Some q -> q = []) ->
+    err s2 = None -> (forall m q, nth_error (boxes s2) m = Some q -> q = []) ->
+    exists l1 l2 w1 w2,
+      invs (log s1) = l1 ++ invs (log s) /\ invs (log s2) = l2 ++ invs (log s) /\ Permutation l1 l2 /\
+      sinks s1 = fold_left sink_apply w1 (sinks s) /\ sinks s2 = fold_left sink_apply w2 (sinks s) /\
+      Permutation w1 w2.
+Proof. exact net_confluent_ok. Qed.
+Print Assumptions c04_schedule_independence_of_ok_runs.
+
+(* both invariants are kept by every step, and both hypotheses are decidable (evaluated at run time on the
+   generated benches, at the start of every call) *)
+Theorem c04_invariants_kept_by_every_step :
+  forall b s l s', bench_valid b -> NInv s -> QInv b s -> net_step b s l = Some s' -> NInv s' /\ QInv b s'.
+Proof.
+  intros b s l s' BV NI Q H. split.
+  - exact (proj1 (net_step_sim b s l s' (bv_plain b BV) NI H)).
+  - exact (net_step_QInv b s l s' BV NI Q H).
+Qed.
+Print Assumptions c04_invariants_kept_by_every_step.
+
+Theorem c04_bench_validity_check_is_sound : forall b, bench_valid_check b = true -> bench_valid b.
+Proof. exact bench_valid_check_sound. Qed.
+Print Assumptions c04_bench_validity_check_is_sound.
+Theorem c04_state_check_is_sound : forall b s, qinv_check b s = true -> QInv b s.
+Proof. exact qinv_check_sound. Qed.
+Print Assumptions c04_state_check_is_sound.
+
+Example c04_quiescence_nonvacuous :
+  bench_valid conf_bench /\ QInv conf_bench conf_start /\
+  exists s1 nd1, net_run conf_bench 500 [] conf_start false = Some (s1, nd1) /\ err s1 = None /\
+                 forallb (fun q => match q with [] => true | _ => false end) (boxes s1) = true.
+Proof. exact quiescence_nonvacuous. Qed.
+
 (* the hypotheses are decidable and met: ninv_check is evaluated by the correspondence runner at the start
    of every init / process call of every plain bench, and the pool is checked empty whenever the call
    returns Ok (tools/props/confprops.py) *)
